@@ -127,6 +127,8 @@ class SaveSim:
                     ('ncfix.sync', ['EIO', 'ENOSPC', 'crash']),
                 ])
                 faults.append({'seam': seam, 'nth': 1, 'kind': rng.choice(kinds)})
+                if faults[-1]['kind'] not in ('crash', 'crash_after', 'partial') and rng.random() < 0.35:
+                    faults[-1]['persistent'] = True    # the condition does not clear by itself: a retry inside the call must not turn it into success
             end = 'crash_after_ack' if rng.random() < 0.4 else 'exit'
             steps.append({'op': 'save', 'src': src, 'via': via, 'path': path, 'faults': faults, 'end': end})
             if faults and faults[0]['kind'] not in ('crash', 'crash_after') and rng.random() < 0.5:
